@@ -335,6 +335,7 @@ class Body:
         self.cleanup = set()
         self.text = ""
         self.impl_at = None  # (file, line) for `<impl at file:l:c: l:c>`
+        self.ambiguous = False
 
     def __repr__(self):
         return "Body(%s)" % self.name
@@ -356,7 +357,17 @@ def parse_mir(text):
                 j += 1
             b = _parse_body(lines[i:j + 1])
             if b is not None:
-                bodies[b.name] = b
+                if b.name in bodies:
+                    # the printer drops module paths of free functions: two modules of one crate can define the same name
+                    first = bodies[b.name]
+                    first.ambiguous = True
+                    b.ambiguous = True
+                    k = 2
+                    while "%s{dup#%d}" % (b.name, k) in bodies:
+                        k += 1
+                    bodies["%s{dup#%d}" % (b.name, k)] = b
+                else:
+                    bodies[b.name] = b
             i = j + 1
         else:
             m1 = re.match(r"^(?:const|static(?: mut)?) (.*?): ([^=]*) = const (.*);$", ln) if ln.startswith(("const ", "static ")) else None
